@@ -1,3 +1,129 @@
 import Cppcms.Common
-/-! Line-protocol driver for C13 (stub: model not written yet). -/
-def main : IO Unit := Cppcms.lineLoop () (fun s _ => (s, "unimplemented"))
+import Cppcms.C13.Model
+import Cppcms.C13.Spec
+/-! Line-protocol driver for C13.  `norm`/`prefix`/`cfg`/`cidr`/`req` lines evaluate the model
+(the file system is the table of libc answers recorded by the harness and shipped in the line);
+`J` lines evaluate the property predicates of `Spec.lean` on outputs of the implementation. -/
+open Cppcms Cppcms.C13
+
+structure Table where
+  r : List (Bytes × Option Bytes) := []
+  s : List (Bytes × Nat) := []
+  d : List (Bytes × Option (List Bytes)) := []
+  f : List (Bytes × Option Bytes) := []
+
+/-- The recorded answers as an `Fs`.  A query the harness did not record gets a default; `alt`
+selects a second, contradictory set of defaults so that the driver can tell whether a missing
+answer mattered (the two runs then differ and the line is answered `MISS`). -/
+def Table.toFs (t : Table) (alt : Bool) : Fs where
+  realpath q := match t.r.lookup q with
+    | some v => v
+    | none => if alt then some [47] else none
+  mode q := match t.s.lookup q with
+    | some v => v
+    | none => if alt then 49152 else 0
+  readdir q := match t.d.lookup q with
+    | some v => v
+    | none => if alt then some [] else none
+  read q := match t.f.lookup q with
+    | some v => v
+    | none => if alt then some [77, 73, 83, 83] else none
+
+def optHex (s : String) : Option (Option Bytes) :=
+  if s == "!" then some none else (parseHex s).map some
+
+def parseEntry (t : Table) (tok : String) : Option Table :=
+  match tok.splitOn "=" with
+  | [k, v] =>
+    match k.splitOn ":" with
+    | ["R", q] => do let q ← parseHex q; let v ← optHex v; pure { t with r := (q, v) :: t.r }
+    | ["S", q] => do let q ← parseHex q; let v ← v.toNat?; pure { t with s := (q, v) :: t.s }
+    | ["F", q] => do let q ← parseHex q; let v ← optHex v; pure { t with f := (q, v) :: t.f }
+    | ["D", q] => do
+      let q ← parseHex q
+      if v == "!" then pure { t with d := (q, none) :: t.d }
+      else if v == "." then pure { t with d := (q, some []) :: t.d }
+      else
+        let names ← (v.splitOn ",").mapM parseHex
+        pure { t with d := (q, some names) :: t.d }
+    | _ => none
+  | _ => none
+
+def parseTable (toks : List String) : Option Table :=
+  toks.foldlM (fun t tok => if tok == "-" then some t else parseEntry t tok) {}
+
+def parseAliases (s : String) : Option (List (Bytes × Bytes)) :=
+  if s == "-" then some []
+  else (s.splitOn ",").mapM fun item =>
+    match item.splitOn ":" with
+    | [u, t] => do let u ← parseHex u; let t ← parseHex t; pure (u, t)
+    | _ => none
+
+def showOutcome : Outcome → String
+  | .notFound => "404"
+  | .redirect loc => "redirect " ++ toHex loc
+  | .serve _ c => "file " ++ toHex c
+  | .listing url _ rows =>
+    "list " ++ toHex (escape url) ++ (if url != [47] && !url.isEmpty then " P" else " N")
+      ++ String.join (rows.map fun r => " " ++ toHex r.text) ++ " H"
+
+def showCidr : Option Path → String
+  | none => "none"
+  | some p => "ok " ++ toHex p
+
+/-- run `f` against both default sets; answer `MISS` when a missing table entry matters -/
+def withTable (toks : List String) (f : Fs → String) : String :=
+  match parseTable toks with
+  | none => "bad-table"
+  | some t =>
+    let a := f (t.toFs false)
+    let b := f (t.toFs true)
+    if a == b then a else "MISS " ++ a ++ " | " ++ b
+
+def splitHexList (s : String) : Option (List Bytes) :=
+  if s == "-" then some [] else (s.splitOn ",").mapM parseHex
+
+def step (cfg : Option Config) (line : String) : Option Config × String :=
+  match words line with
+  | ["norm", h] => (cfg, match parseHex h with | some s => toHex (normalize s) | none => "bad-op")
+  | ["prefix", p, f] => (cfg, match parseHex p, parseHex f with
+      | some p, some f => boolStr (isFilePrefix p f) | _, _ => "bad-op")
+  | ["pathinfo", t] => (cfg, match parseHex t with | some t => toHex (pathInfoOfTarget t) | none => "bad-op")
+  | ["cfg", sym, list, _async, root, al, idx] =>
+    match parseHex root, parseAliases al, parseHex idx with
+    | some root, some al, some idx =>
+      (some { docRoot := root, aliases := al, checkSymlinks := sym == "1", listing := list == "1", indexFile := idx }, "ok")
+    | _, _, _ => (cfg, "bad-op")
+  | "cidr" :: h :: toks =>
+    match cfg, parseHex h with
+    | some c, some f => (cfg, withTable toks fun fs => showCidr (checkInDocumentRoot fs c f))
+    | none, _ => (cfg, "no-config")
+    | _, _ => (cfg, "bad-op")
+  | "req" :: h :: toks =>
+    match cfg, parseHex h with
+    | some c, some t => (cfg, withTable toks fun fs => showOutcome (main fs c (pathInfoOfTarget t)))
+    | none, _ => (cfg, "no-config")
+    | _, _ => (cfg, "bad-op")
+  -- judges: property predicates (Spec) on what the implementation returned
+  | ["J", "norm", o] => (cfg, match parseHex o with | some o => boolStr (Spec.canonical o) | none => "bad-op")
+  | ["J", "prefix", p, f, r] => (cfg, match parseHex p, parseHex f with
+      | some p, some f =>
+        if Spec.canonical p && Spec.canonical f then boolStr ((r == "1") == Spec.compPrefix p f) else "1"
+      | _, _ => "bad-op")
+  | ["J", "inside", roots, real] => (cfg, match splitHexList roots, parseHex real with
+      | some roots, some real => boolStr (roots.any fun root => Spec.inside root real)
+      | _, _ => "bad-op")
+  | ["J", "lexical", roots, real] => (cfg, match splitHexList roots, parseHex real with
+      | some roots, some real =>
+        boolStr (roots.any fun root => root.isPrefixOf real && Spec.noDotDot (real.drop root.length))
+      | _, _ => "bad-op")
+  | ["J", "row", names, text] => (cfg, match splitHexList names, parseHex text with
+      | some names, some text =>
+        boolStr (names.any fun n => n.head? != some 46 && (Spec.escapedFor n text || Spec.escapedFor (n ++ [47]) text))
+      | _, _ => "bad-op")
+  | ["J", "escaped", plain, text] => (cfg, match parseHex plain, parseHex text with
+      | some plain, some text => boolStr (Spec.escapedFor plain text)
+      | _, _ => "bad-op")
+  | _ => (cfg, "bad-op")
+
+def main : IO Unit := lineLoop (none : Option Config) step
